@@ -116,7 +116,8 @@ def _run(mod, pid, tier, t0):
 
     # 2. Lean: build the property's theorem modules, gate, audit
     modules = list(mod.LEAN_MODULES)
-    ok_build, out = common.lake_build(modules + ["driver"])
+    ok_build, out = common.lake_build(modules)
+    ok_driver, out_drv = common.lake_build(["driver"])
     theorems = []
     for m in modules:
         theorems += common.theorem_names(m)
@@ -156,7 +157,9 @@ def _run(mod, pid, tier, t0):
 
     # 4. correspondence
     corrs = []
-    if ok_build:
+    if not ok_driver:
+        ob("lean:driver-build", False, "\n".join([l for l in out_drv.splitlines() if "error" in l][:10]) or out_drv[-400:])
+    else:
         corrs = mod.correspond(tier)
         for c in corrs:
             ob(f"correspondence:{c.name}", c.ok,
